@@ -275,3 +275,68 @@ func LenOf(v ssa.Value) (ssa.Value, bool) {
 	}
 	return nil, false
 }
+
+// ---------- function values ----------
+
+// one-entry cache: only the most recently analysed program is kept (self-tests load many)
+var (
+	g7RefsProg *Program
+	g7RefsIdx  map[*ssa.Function][]ssa.Instruction
+)
+
+// g7WrapperTarget: f is a synthetic wrapper (bound method value h.m, method expression thunk);
+// returns the declared function it forwards to.
+func g7WrapperTarget(f *ssa.Function) *ssa.Function {
+	if f == nil || f.Synthetic == "" {
+		return nil
+	}
+	for _, b := range f.Blocks {
+		for _, in := range b.Instrs {
+			if c, ok := in.(ssa.CallInstruction); ok {
+				if callee := c.Common().StaticCallee(); callee != nil {
+					return callee
+				}
+			}
+		}
+	}
+	return nil
+}
+
+// G7ValueRefs returns the instructions of repository code that use fn as a value (method value
+// h.m, function name assigned to a variable or stored in a table, passed as an argument) rather
+// than calling it directly. A function referenced this way can be invoked wherever the value
+// flows, at the earliest when the reference is evaluated.
+func (p *Program) G7ValueRefs(fn *ssa.Function) []ssa.Instruction {
+	idx := g7RefsIdx
+	if g7RefsProg != p {
+		idx = map[*ssa.Function][]ssa.Instruction{}
+		for _, f := range p.RepoFuncs() {
+			Instrs(f, func(in ssa.Instruction) {
+				var callee ssa.Value
+				if ci, isCall := in.(ssa.CallInstruction); isCall && !ci.Common().IsInvoke() {
+					callee = ci.Common().Value
+				}
+				for _, op := range in.Operands(nil) {
+					if op == nil || *op == nil {
+						continue
+					}
+					fv, isFn := (*op).(*ssa.Function)
+					if !isFn || *op == callee {
+						continue
+					}
+					target := fv
+					if fv.Synthetic != "" {
+						target = g7WrapperTarget(fv)
+					} else if fv.Parent() != nil {
+						continue // an ordinary function literal: it is its own code, not a reference
+					}
+					if target != nil {
+						idx[target] = append(idx[target], in)
+					}
+				}
+			})
+		}
+		g7RefsProg, g7RefsIdx = p, idx
+	}
+	return idx[fn]
+}
